@@ -140,7 +140,7 @@ func RunC17(c *Ctx) error {
 	var batches []*batch
 	for _, drv := range drvs.List {
 		r := prng.Sub(c.Seed, "c17/"+drv.Grammar.ID, 0)
-		pool := newPool(drv.Grammar, r, drv.HasLexer)
+		pool := newPool(drv.Grammar, r, drv.HasLexer, c.Tier == "thorough")
 		var jobs []harness.Job
 		for _, v := range drv.Variants {
 			for k := 0; k < nJobs; k++ {
